@@ -11,12 +11,13 @@ from ..vc.linvec import LinHooks
 
 REL = 'src/mbi/graphical_model.py'
 SITES = [
-    dict(container='messages', name='message-equation',
+    dict(container='messages', nth=1, of=1, name='message-equation',
          # the reverse message lives on the separator, so dividing it out before or after summing out the rest is the same value
          spec='same(__arg, ((beliefs[i] - messages[(j, i)]) if (j, i) in messages else beliefs[i]).logsumexp(beliefs[i].domain.invert(self.sep_axes[(i, j)]))) or '
               '((j, i) in messages and same(__arg, beliefs[i].logsumexp(beliefs[i].domain.invert(self.sep_axes[(i, j)])) - messages[(j, i)]))'),
-    dict(container='beliefs', name='absorption-or-normalisation',
-         spec='same(__arg, beliefs[j] + messages[(i, j)]) or same(__arg, beliefs[cl] + (np.log(self.total) - logZ)) or same(__arg, beliefs[cl].exp(out=beliefs[cl]))'),
+    dict(container='beliefs', nth=1, of=3, name='absorption', spec='same(__arg, beliefs[j] + messages[(i, j)])'),
+    dict(container='beliefs', nth=2, of=3, name='shift-to-the-total', spec='same(__arg, beliefs[cl] + (np.log(self.total) - logZ))'),
+    dict(container='beliefs', nth=3, of=3, name='exponentiated-in-place', spec='same(__arg, beliefs[cl].exp(out=beliefs[cl]))'),
 ]
 BPMSG = dict(
     params=dict(self='obj:GraphicalModel', potentials='obj:dict', logZ='bool'),
